@@ -1028,6 +1028,30 @@ static Member *struct_designator(Token **rest, Token *tok, Type *ty) {
   error_tok(tok, "struct has no such member");
 }
 
+// Forget the initializers recorded for a subobject.
+static void clear_initializer(Initializer *init) {
+  init->expr = NULL;
+  init->mem = NULL;
+  if (!init->children)
+    return;
+
+  if (init->ty->kind == TY_ARRAY) {
+    for (int i = 0; i < init->ty->array_len; i++)
+      clear_initializer(init->children[i]);
+  } else {
+    for (Member *mem = init->ty->members; mem; mem = mem->next)
+      clear_initializer(init->children[mem->idx]);
+  }
+}
+
+// Selecting another member of a union overrides the previously selected
+// one (C11 6.7.9p19); what was given for it is discarded.
+static void select_union_member(Initializer *init, Member *mem) {
+  if (init->mem && init->mem != mem)
+    clear_initializer(init->children[init->mem->idx]);
+  init->mem = mem;
+}
+
 // designation = ("[" const-expr "]" | "." ident)* "="? initializer
 static void designation(Token **rest, Token *tok, Initializer *init) {
   if (equal(tok, "[")) {
@@ -1054,7 +1078,7 @@ static void designation(Token **rest, Token *tok, Initializer *init) {
 
   if (equal(tok, ".") && init->ty->kind == TY_UNION) {
     Member *mem = struct_designator(&tok, tok, init->ty);
-    init->mem = mem;
+    select_union_member(init, mem);
     designation(rest, tok, init->children[mem->idx]);
     return;
   }
@@ -1236,10 +1260,10 @@ static void union_initializer(Token **rest, Token *tok, Initializer *init) {
 
       if (equal(tok, ".")) {
         Member *mem = struct_designator(&tok, tok, init->ty);
-        init->mem = mem;
+        select_union_member(init, mem);
         designation(&tok, tok, init->children[mem->idx]);
       } else if (first) {
-        init->mem = skip_unnamed_bitfields(init->ty->members);
+        select_union_member(init, skip_unnamed_bitfields(init->ty->members));
         initializer2(&tok, tok, init->children[init->mem->idx]);
       } else {
         tok = skip_excess_element(tok);
@@ -1249,7 +1273,7 @@ static void union_initializer(Token **rest, Token *tok, Initializer *init) {
     return;
   }
 
-  init->mem = skip_unnamed_bitfields(init->ty->members);
+  select_union_member(init, skip_unnamed_bitfields(init->ty->members));
   initializer2(rest, tok, init->children[init->mem->idx]);
 }
 
